@@ -303,11 +303,33 @@ def run(run, tier):
   for c in cases:
     x = c["x"]
     xste = np.asarray(K.tanh(tf.constant(x)), dtype=np.float32) if c["alpha"] is None else x
-    q, y, sc = impl_call(Q, K, tf, c)
-    impl.append((A.fr(x), A.fr(xste), A.fr(y), [F(float(v)) for v in sc]))
+    try:
+      q, y, sc = impl_call(Q, K, tf, c)
+    except Exception as e:  # pylint: disable=broad-except
+      # a valid configuration must produce an output: an exception of the real code is a failure of the
+      # property on this input (not an infrastructure error of the check)
+      run.case(key=("raises", len(run.nontrivial)), nontrivial=True)
+      run.count("impl-raises")
+      run.violate("returns_output", dict(quantizer=c["q"], alpha=str(c["alpha"]), error=type(e).__name__),
+                  {"case": label(c), "error": str(e)[:300]}, mirrored=False)
+      impl.append(None)
+      lines.append(line_of(c, xste, eps32))
+      continue
     lines.append(line_of(c, xste, eps32))
+    if not (np.isfinite(y).all() and np.isfinite(sc).all()):
+      run.case(key=("nonfinite", len(run.nontrivial)), nontrivial=True)
+      run.count("impl-nonfinite")
+      run.violate("finite", dict(quantizer=c["q"], alpha=str(c["alpha"])),
+                  {"case": label(c), "y": [float(v) for v in np.asarray(y).ravel()[:8]],
+                   "scale": [float(v) for v in np.asarray(sc).ravel()[:8]]}, mirrored=False)
+      impl.append(None)
+      continue
+    impl.append((A.fr(x), A.fr(xste), A.fr(y), [F(float(v)) for v in sc]))
   outs = core.run_driver("C04", lines)
-  for c, (x, xste, y, sc), o in zip(cases, impl, outs):
+  for c, im, o in zip(cases, impl, outs):
+    if im is None:
+      continue
+    x, xste, y, sc = im
     auto = isinstance(c["alpha"], str)
     run.case(key=(c["q"], str(c["alpha"]), c["stream"], tuple(c["shape"]), str(c.get("sa")), str(c.get("eps")),
                   len(run.nontrivial)),
@@ -393,16 +415,22 @@ def run(run, tier):
       for sa in [None] + list(range(rank)) + ([[0], [rank - 1], [0, rank - 1], list(range(rank))] if rank >= 2 else []):
         sl.append(dict(op="scaling_axis", sa=sa, len=rank, ch_last=ch_last))
         K.set_image_data_format("channels_last" if ch_last else "channels_first")
-        want.append([int(v) for v in np.asarray(Q._get_scaling_axis(sa, rank)).ravel().tolist()])
+        try:
+          want.append([int(v) for v in np.asarray(Q._get_scaling_axis(sa, rank)).ravel().tolist()])
+        except Exception as e:  # pylint: disable=broad-except
+          want.append("raises:" + type(e).__name__)
   K.set_image_data_format("channels_last")
   for sh, sa, eps in [([16, 32], 1, 4), ([16, 32], [0, 1], [2, 4]), ([4, 8, 8, 16], [2, 3], [2, 4]),
                       ([4, 8, 8, 16], [1, 3], 2), ([8], 0, 2), ([2, 4, 8], [0, 1, 2], [2, 2, 2]),
                       ([2, 4, 8], 2, 8), ([2, 4, 8], [1], [4])]:
     sl.append(dict(op="shapes", shape=sh, sa=sa, eps=eps))
-    sa2, eps2 = Q._validate_axis_and_eps(list(sh), sa, eps)
-    u, ua = Q._get_unrolled_shape(list(sh), eps2, sa2)
-    rb = Q._get_rolled_back_shape(list(u), ua)
-    want.append(dict(unrolled=list(u), uaxes=(ua if isinstance(ua, list) else [ua]), rolled=list(rb)))
+    try:
+      sa2, eps2 = Q._validate_axis_and_eps(list(sh), sa, eps)
+      u, ua = Q._get_unrolled_shape(list(sh), eps2, sa2)
+      rb = Q._get_rolled_back_shape(list(u), ua)
+      want.append(dict(unrolled=list(u), uaxes=(ua if isinstance(ua, list) else [ua]), rolled=list(rb)))
+    except Exception as e:  # pylint: disable=broad-except
+      want.append("raises:" + type(e).__name__)
   so = core.run_driver("C04", sl)
   for l, w, o in zip(sl, want, so):
     run.case(key=("static", core.json.dumps(l, sort_keys=True)), nontrivial=True)
